@@ -48,6 +48,21 @@ def plain(v):
   return v
 
 
+def _dp(v):
+  """Like plain(), but also descends into raw dict/list/tuple (driver only)."""
+  if isinstance(v, pg.Object):
+    return (type(v).__name__, _dp(v.sym_init_args))
+  if isinstance(v, pg.Dict):
+    return {k: _dp(c) for k, c in v.sym_items()}
+  if isinstance(v, pg.List):
+    return [_dp(c) for c in v.sym_values()]
+  if isinstance(v, dict):
+    return {k: _dp(c) for k, c in v.items()}
+  if isinstance(v, (list, tuple)):
+    return type(v)(_dp(c) for c in v)
+  return v
+
+
 def unsym(v, objs):
   """Plain copy for re-application of the real spec; objects kept, collected."""
   if isinstance(v, pg.Dict):
@@ -455,14 +470,14 @@ def _check_real(value, spec, partial):
   try:
     copy = unsym(value, objs)
     applied = spec.apply(copy, allow_partial=partial)
-    if plain(applied) != plain(value):
-      return f'spec maps stored state to a different value: {plain(applied)!r}'
+    if _dp(applied) != _dp(value):
+      return f'spec maps stored state to a different value: {_dp(applied)!r}'
     for o in objs:
       inner = []
       attrs = {k: unsym(c, inner) for k, c in o.sym_items()}
       applied = type(o).sym_fields.apply(dict(attrs), allow_partial=partial)
-      if plain(applied) != plain(attrs):
-        return f'{type(o).__name__} schema maps stored attributes to {plain(applied)!r}'
+      if _dp(applied) != _dp(attrs):
+        return f'{type(o).__name__} schema maps stored attributes to {_dp(applied)!r}'
       objs.extend(inner)
   except Exception as e:  # pylint: disable=broad-except
     return f'own spec rejects stored state: {type(e).__name__}: {str(e)[:160]}'
